@@ -20,6 +20,7 @@ RULE = (
     "built once and run three times each (run k of the nested build = run k of the flat build). Non-trivial: the group has >= 1 value crossing the boundary in each "
     "direction or a binding/rename/select at the boundary; distinct = canonical shape of the nested spec."
     ' Also: a binding pushed into the inner graph of one of two sibling wrappers (1-3 levels deep) that consume the same name (the reference lifts nested bindings to the enclosing level as InputSpec.bound does).'
+    ' Also: values that are None or falsy addressed to inputs, None bound at the top level, and outside nodes whose result is None feeding a nested graph.'
 )
 ASSUMPTIONS = [
     "inner-level bindings are only placed on names private to the wrapped group (anything else is a different program)",
